@@ -283,6 +283,35 @@ def run(ctx: Ctx, tier: str) -> Result:
                 res.fail(Finding("C06.INDEP", f.qname, c, f.loc(c),
                                  "the identity cache `%s` is not created per action: a later action of the same event finds the frame's values "
                                  "already cached and records no variables" % txt))
+    # an action context created while processing another action (the log of a snapshot) feeds the same snapshot
+    # table, so it must number its variables with the same identity cache
+    acx = p.cls("deep.processor.context.action_context.ActionContext")
+    for f in p.functions.values():
+        if f.cls is None or not f.cls.is_subclass_of(acx):
+            continue
+        for c in t.calls_in(f):
+            for k in t.resolve_call(c, f).ctor:
+                if not k.is_subclass_of(acx):
+                    continue
+                st = paths.stmt_of(p, c)
+                name = st.targets[0].id if isinstance(st, ast.Assign) and isinstance(st.targets[0], ast.Name) else None
+                shared = False
+                if name:
+                    for n in t.nodes_in(f, ast.Assign):
+                        tg = n.targets[0]
+                        if isinstance(tg, ast.Attribute) and isinstance(tg.value, ast.Name) and tg.value.id == name and \
+                                ctx.expand.expand(n.value, f) and set(ctx.expand.expand(n.value, f)) <= cache_texts | {"@self.var_cache"} and \
+                                paths.dominates(p, st, n, f):
+                            uses = [u for u in t.calls_in(f) if isinstance(u.func, ast.Attribute) and isinstance(u.func.value, ast.Name)
+                                    and u.func.value.id == name]
+                            if all(paths.dominates(p, n, u, f) for u in uses):
+                                shared = True
+                if shared:
+                    res.ok("C06.INDEP", {"nested context shares the action's cache": f.loc(c)})
+                else:
+                    res.fail(Finding("C06.INDEP", f.qname, c, f.loc(c),
+                                     "a nested %s is created while processing this action but numbers its variables with its own identity cache: "
+                                     "when its variables are merged into the snapshot they overwrite entries with the same ids" % k.name))
     res.floor("identity-cache uses in action contexts", nsites, 3)
     if len(cache_texts) <= 1:
         res.ok("C06.INDEP", {"one cache per action": sorted(cache_texts)})
